@@ -28,3 +28,8 @@ package grpcsync
 //@   prop C57
 //@   requires e != nil
 //@   ensures result == e.fired.Load()
+
+// PubSub.Publish hands the message to the subscribers' serializer; it changes only
+// the PubSub itself (frame only; C31's domain, not verified here)
+//@ func (*PubSub).Publish
+//@   trusted
